@@ -78,7 +78,7 @@ PROPS["C02"] = store_prop(["Props/C02.v"], ["3", "4", "6", "7", "11"], ["C02"],
     "accounting invariant over the store model; white-box dumps (resident set, policy weights, regions) compared after every step")
 PROPS["C05"] = store_prop(["Props/C05.v"], ["3", "4", "11"], ["C05"],
     "listener log of the model vs the real removal listener, per delivered event and per tick")
-PROPS["C06"] = store_prop(["Props/C06.v"], ["0", "1", "8", "3", "4"], ["C06"],
+PROPS["C06"] = store_prop(["Props/C06.v"], ["0", "1", "8", "3", "4", "11"], ["C06"],
     "Set/loader admission rules over the store model; Set results, immediate visibility and removal reasons compared with the real Store")
 PROPS["C16"] = store_prop(["Props/C16.v"], ["5", "6"], ["C16"],
     "counters and views of the model vs Stats/Len/Range/EstimatedSize of the real Store")
@@ -95,4 +95,19 @@ PROPS["C08"] = {
                      "modelled, not verified: sequentially consistent atomics (Go sync/atomic), unsafe.Pointer slots as integers"],
     "assumptions": ["Go's sync/atomic operations are sequentially consistent"],
     "explanation": "ring model at single-atomic granularity; the real Buffer is stepped along the same schedules and compared after every step",
+}
+
+PROPS["C20"] = {
+    "props_files": ["Props/C20.v"],
+    "go_tests": ["TestVerifWait", "TestVerifWaitConcurrent"],
+    "level": "proof",
+    "rule": "deterministic: real Wait() calls blocked in goroutines, Set/Delete traffic, and the real drainWrite() applied to harness-chosen "
+            "batch boundaries (1..4 items or everything) so that markers fall at every position relative to a batch; concurrent: 2..8 goroutines "
+            "doing Set+Wait against the real maintenance goroutine; non-trivial = >= 3 steps; distinct = sha1 of the case",
+    "trusted_base": STORE_TB + ["Go channels are FIFO; close(chan) wakes every receiver"],
+    "assumptions": ["the maintenance goroutine keeps being scheduled while the cache is open"],
+    "project_codes": {"wait": ["12", "13", "1", "2", "6", "7"]},
+    "impl_only_traces": ["waitconc"],
+    "monitor_tags": ["C20"],
+    "explanation": "barrier and release theorems over the store model's queue; released waiters per batch compared with the real Wait",
 }
